@@ -232,3 +232,54 @@ Proof.
   split; [intros lim s t H; cbn beta; rewrite H; reflexivity|]. split; [intro s; reflexivity|]. split; [intro s; reflexivity|].
   split; [vm_compute; reflexivity|]. split; vm_compute; reflexivity.
 Qed.
+
+(* ==================================================================================================================
+   Round 4: save_to_file / restore_from_file - any number of restores of ONE checkpoint, interleaved with continuations
+   ================================================================================================================== *)
+From SG Require Import Proofs.DriverCheckpoint.
+
+(* a live copy ends in what the calls addressed to IT make of it - whatever is restored or continued in between *)
+Theorem C14_copy_depends_on_its_own_calls_only :
+  forall (St : Type) (evaluate refine : St -> St) (observe : St -> obs) c ops store i x,
+  nth_error store i = Some x ->
+  nth_error (ck_exec St evaluate refine observe c ops store) i
+    = Some (run_legs_opt St evaluate refine observe (legs_of i ops) x).
+Proof. exact copy_depends_on_its_own_calls_only. Qed.
+
+(* a copy created by a restore at ANY point of the history starts from the checkpoint as saved *)
+Theorem C14_restored_copy_starts_from_the_checkpoint :
+  forall (St : Type) (evaluate refine : St -> St) (observe : St -> obs) c pre post store,
+  let i := length (ck_exec St evaluate refine observe c pre store) in
+  nth_error (ck_exec St evaluate refine observe c (pre ++ OpRestore :: post) store) i
+    = Some (run_legs_opt St evaluate refine observe (legs_of i post) (Some c)).
+Proof. exact restored_copy_starts_from_the_checkpoint. Qed.
+
+(* every copy ends where the single uninterrupted run with that copy's final limits ends *)
+Theorem C14_checkpoint_copies_end_where_single_runs_end :
+  forall (St : Type) (evaluate refine : St -> St) (observe : St -> obs),
+  (forall s, evaluate (evaluate s) = evaluate s) ->
+  forall prefix s d c pre post store lf s_i d_i,
+    run_legs St evaluate refine observe prefix s d = Some c ->
+    let i := length (ck_exec St evaluate refine observe c pre store) in
+    let mine := legs_of i post in
+    nth_error (ck_exec St evaluate refine observe c (pre ++ OpRestore :: post) store) i = Some (Some (s_i, d_i)) ->
+    mine <> [] -> last (map fst (prefix ++ mine)) lf = lf -> all_growb (map fst (prefix ++ mine)) lf = true ->
+    run St evaluate refine observe lf (legs_fuel (prefix ++ mine)) s = Some s_i.
+Proof. exact checkpoint_copies_end_where_single_runs_end. Qed.
+Print Assumptions C14_checkpoint_copies_end_where_single_runs_end.
+
+(* non-vacuity: checkpoint after perform(tol 1/3) (state 2); restore, continue copy 0 to k=5, restore AGAIN (the scenario of the
+   seeded change C14r4: the second restore must give the checkpoint, not the continued copy 0), continue copy 1 with other limits
+   (k=3), continue copy 0 once more with identical limits: copies end at 5 and 3, as the single runs with their limits do *)
+Example C14_nonvacuous_checkpoint :
+  let l1 := mkLimits (Q2Qc (1 # 3)) 1 (Some 100) in
+  let l3 := mkLimits (Q2Qc (1 # 6)) 10 (Some 100) in
+  let l4 := mkLimits (Q2Qc (1 # 4)) 1 (Some 100) in
+  exists c, run_legs nat (fun k => k) S nv_observe [(l1, 20%nat)] 0%nat d_init = Some c /\ fst c = 2%nat /\
+  map (option_map fst) (ck_exec nat (fun k => k) S nv_observe c
+        [OpRestore; OpContinue 0 l3 20; OpRestore; OpContinue 1 l4 20; OpContinue 0 l3 20] [])
+    = [Some 5%nat; Some 3%nat] /\
+  run nat (fun k => k) S nv_observe l3 60 0%nat = Some 5%nat /\ run nat (fun k => k) S nv_observe l4 60 0%nat = Some 3%nat.
+Proof.
+  eexists. split; [vm_compute; reflexivity|]. split; [reflexivity|]. split; [vm_compute; reflexivity|]. split; vm_compute; reflexivity.
+Qed.
